@@ -82,8 +82,8 @@ Print Assumptions render_keeps_view_attrs.
    the restriction of the result to that view, labelled with the view (no label when the view
    is fixed), and the client validates it and hands back exactly that restriction: attributes
    outside the view unset, inside the view unchanged. The two hypotheses are the negations of
-   the signatures of the two known findings (server-undefined-view-*, and
-   container-result-type-validated-under-default-view). *)
+   the situation unknown_view_refused_by_server covers and of the signature of the known
+   finding container-result-type-validated-under-default-view. *)
 Theorem client_sees_restriction_partial e c t fixed chosen x :
   closed e = true -> view_blind_safe e = true ->
   has_view e t (selected fixed chosen) = true -> full_valid e t x = true ->
@@ -155,28 +155,13 @@ Theorem unknown_view_rejected e t r h body :
 Proof. intros Ft Hn. exact (client_rejects_unknown e t r None h body Ft eq_refl Hn). Qed.
 Print Assumptions unknown_view_rejected.
 
-(* server half: a view name the type does not define, returned by the service, is not
-   refused: the server sends nothing (single result: nil dereference, connection closed) or
-   an empty list labelled "" whatever the elements were (collection). Known finding
-   server-undefined-view-panic / server-undefined-view-empty-collection. *)
-Theorem server_unknown_view_refuted :
-  exists e t v x, full_valid e t x = true /\ closed e = true /\ has_view e t (norm v) = false /\
-    server_respond e false t None v x = SPanic /\
-    server_respond e true t None v (VList (VLCons x VLNil)) = SResp (Some "") (VList VLNil) /\
-    client_decode e t None (Some "") (VList VLNil) = COk (VList VLNil).
-Proof.
-  exists [("T", mkRT [mkAttr "a" (TLeaf true) None true] [mkView "default" [("a", None)]; mkView "tiny" [("a", None)]])],
-         "T", "nope", (VObj (VFCons "a" (VLeaf 1) VFNil)).
-  repeat split.
-Qed.
-Print Assumptions server_unknown_view_refuted.
-
-Theorem server_unknown_view_always e t v x :
-  has_view e t (norm v) = false ->
-  server_respond e false t None v x = SPanic /\
-  server_respond e true t None v x = SResp (Some "") (VList VLNil).
-Proof. exact (server_unknown e t v x). Qed.
-Print Assumptions server_unknown_view_always.
+(* server half: for EVERY view name the type does not define ("" standing for "default"),
+   returned by the service method, single result or collection, the generated server answers a
+   fault and renders nothing *)
+Theorem unknown_view_refused_by_server e c t v x :
+  has_view e t (norm v) = false -> server_respond e c t None v x = SFault.
+Proof. exact (server_unknown e c t v x). Qed.
+Print Assumptions unknown_view_refused_by_server.
 
 (* ---- non-vacuity ---- *)
 
@@ -228,5 +213,7 @@ Example exchange_example :
     = SResp (Some "tiny") (VObj (VFCons "a" (VLeaf 1) (VFCons "inner" (VObj (VFCons "i1" (VLeaf 2) VFNil))
                                 (VFCons "arr" (VList (VLCons (VObj (VFCons "i1" (VLeaf 5) VFNil)) VLNil)) VFNil)))) /\
   view_blind_safe ex_env = true /\
-  client_decode ex_env "Outer" None (Some "Tiny") x = CErr.
+  client_decode ex_env "Outer" None (Some "Tiny") x = CErr /\
+  server_respond ex_env false "Outer" None "Tiny" x = SFault /\
+  server_respond ex_env true "Outer" None "nope" (VList (VLCons x VLNil)) = SFault.
 Proof. repeat split; vm_compute; reflexivity. Qed.
